@@ -27,13 +27,15 @@ type Program struct {
 	IntrinsicNames map[string]bool
 	NoInit         map[string]bool // packages whose init function is not executed
 	RepoDir        string
+	NoIfConv       bool
+	pur            *purity
 }
 
 // packages whose initialisers are never run by the interpreter (they need the runtime, reflection, regexps, I/O).
 var defaultNoInit = []string{
 	"runtime", "reflect", "os", "syscall", "regexp", "regexp/syntax", "encoding/json", "fmt", "log", "time", "sync",
 	"unicode", "strconv", "io", "io/fs", "embed", "errors", "internal/", "testing",
-	"github.com/pdok/texel/tms20", "github.com/go-playground/", "github.com/perimeterx/", "github.com/creasty/",
+	"github.com/go-playground/", "github.com/perimeterx/", "github.com/creasty/",
 	"github.com/go-spatial/geom/encoding", "github.com/go-spatial/geom/slippy", "github.com/mattn/",
 }
 
@@ -70,7 +72,7 @@ func LoadProgram(dir string, patterns []string, overlay map[string][]byte) (*Pro
 	}
 	prog, spkgs := ssautil.AllPackages(pkgs, ssa.InstantiateGenerics|ssa.SanityCheckFunctions*0)
 	prog.Build()
-	p := &Program{Prog: prog, Pkgs: pkgs, SSAPkgs: map[string]*ssa.Package{}, Budget: 2000000, IntrinsicNames: map[string]bool{}, NoInit: map[string]bool{}, RepoDir: dir}
+	p := &Program{Prog: prog, Pkgs: pkgs, SSAPkgs: map[string]*ssa.Package{}, Budget: 2000000, IntrinsicNames: map[string]bool{}, NoInit: map[string]bool{}, RepoDir: dir, pur: newPurity()}
 	for i, sp := range spkgs {
 		if sp != nil {
 			p.SSAPkgs[pkgs[i].PkgPath] = sp
